@@ -523,7 +523,10 @@ class Stream(APIRegisterMixin):
                 try:
                     result = await asyncio.gather(*self._emit(x, metadata=metadata))
                 finally:
-                    del thread_state.asynchronous
+                    # not ``del``: with two threads blocked in emit() two of
+                    # these coroutines overlap on the loop thread and the
+                    # second one to finish would find the attribute gone
+                    thread_state.asynchronous = False
                 return result
 
             sync(self.loop, _)
